@@ -1,21 +1,21 @@
 /-
-Tie, top layer, cpu65c816: the routine dispatcher, nmi / irq / Reset, and `Step()` itself — the regenerated `Step` (fetch, table
+Tie, top layer, cpualt: the routine dispatcher, nmi / irq / Reset, and `Step()` itself — the regenerated `Step` (fetch, table
 lookup, the 26-way addressing switch, cycle adjustment, dispatch, PC / cycle bookkeeping, result pair) equals the model's
 `stepFull` followed by reading (Cycles, Stopped).
 -/
-import SnesVerif.Cpu.GoTie.OpsPrimary1
-import SnesVerif.Cpu.GoTie.OpsPrimary2
-import SnesVerif.Cpu.GoTie.OpsPrimary3
-import SnesVerif.Cpu.GoTie.OpsPrimary4
-import SnesVerif.Cpu.GoTie.AdcPrimary
+import SnesVerif.Cpu.GoTie.OpsAlt1
+import SnesVerif.Cpu.GoTie.OpsAlt2
+import SnesVerif.Cpu.GoTie.OpsAlt3
+import SnesVerif.Cpu.GoTie.OpsAlt4
+import SnesVerif.Cpu.GoTie.AdcAlt
 import SnesVerif.Cpu.InterruptModel
-namespace Cpu.GoTie.Primary
+namespace Cpu.GoTie.Alt
 open Cpu Cpu.GoPrim Cpu.GoTie
 set_option maxRecDepth 100000
 set_option linter.unusedSimpArgs false
 
 /-- `instructions[opcode].proc(cpu)` runs the model's routine (every routine the table can name) -/
-theorem callProc_eq : ∀ (p : Proc), p ≠ .none → Gen.CpuGo.Primary.callProc p = Cpu.runP p
+theorem callProc_eq : ∀ (p : Proc), p ≠ .none → Gen.CpuGo.Alt.callProc p = Cpu.runP p
   | .adc, _ => op_adc_eq
   | .sbc, _ => op_sbc_eq
   | .and, _ => op_and_eq
@@ -95,7 +95,7 @@ theorem callProc_eq : ∀ (p : Proc), p ≠ .none → Gen.CpuGo.Primary.callProc
   | .plb, _ => op_plb_eq
   | .rep, _ => op_rep_eq
   | .sep, _ => op_sep_eq
-  | .stp, _ => op_stp_eq
+  | .stp, _ => stp_eq
   | .tcd, _ => op_tcd_eq
   | .tcs, _ => op_tcs_eq
   | .tdc, _ => op_tdc_eq
@@ -107,19 +107,19 @@ theorem callProc_eq : ∀ (p : Proc), p ≠ .none → Gen.CpuGo.Primary.callProc
   | .xce, _ => op_xce_eq
   | .none, h => absurd rfl h
 
-@[gotie_p] theorem nmi_eq : Gen.CpuGo.Primary.nmi = Cpu.nmi := by
+@[gotie_a] theorem nmi_eq : Gen.CpuGo.Alt.nmi = Cpu.nmi := by
   funext s
-  simp only [Gen.CpuGo.Primary.nmi, Gen.CpuGo.Primary.op_php, Cpu.nmi, gotie_p]
+  simp only [Gen.CpuGo.Alt.nmi, Gen.CpuGo.Alt.op_php, Cpu.nmi, gotie_a]
   gorun []
 
-@[gotie_p] theorem irq_eq : Gen.CpuGo.Primary.irq = Cpu.irq := by
+@[gotie_a] theorem irq_eq : Gen.CpuGo.Alt.irq = Cpu.irq := by
   funext s
-  simp only [Gen.CpuGo.Primary.irq, Cpu.irq, gotie_p]
+  simp only [Gen.CpuGo.Alt.irq, Cpu.irq, gotie_a]
   gorun []
 
-theorem Reset_eq : Gen.CpuGo.Primary.Reset = Cpu.reset := by
+theorem Reset_eq : Gen.CpuGo.Alt.Reset = Cpu.reset := by
   funext s
-  simp only [Gen.CpuGo.Primary.Reset, Cpu.reset, gotie_p]
+  simp only [Gen.CpuGo.Alt.Reset, Cpu.reset, gotie_a]
   gorun []
 
 /-! ### Step -/
@@ -132,7 +132,7 @@ macro "rsteps" : tactic => `(tactic|
     | (with_reducible apply read_step _ (isRead_nRead24_wrap _ _); intro _)
     | simp only [modify_bind, get_bind, Cpu.pure_bind, bind_assoc, bind_pure_unit]))
 
-theorem primary_proc_ne : ∀ i, i < 256 → (rowSem (primary_instructions.getD i default)).proc ≠ .none := by
+theorem alt_proc_ne : ∀ i, i < 256 → (rowSem (alt_instructions.getD i default)).proc ≠ .none := by
   decide +kernel
 
 theorem bind_congr_run' {α β : Type} (x : Ex α) (f g : α → Ex β) (s s' : St) (hs : s = s') (h : ∀ a s'', f a s'' = g a s'') :
@@ -143,20 +143,20 @@ theorem mod32_24 (x : Nat) : x % 4294967296 % 16777216 = x % 16777216 := by omeg
 
 set_option maxHeartbeats 4000000 in
 theorem Step_eq (latch : Nat) :
-    Gen.CpuGo.Primary.Step (semOf .primary) (adjOf .primary) latch =
-      (do Cpu.stepFull .primary latch; let c ← Cpu.get; pure (c.Cycles.toNat, c.Stopped)) := by
+    Gen.CpuGo.Alt.Step (semOf .alt) (adjOf .alt) latch =
+      (do Cpu.stepFull .alt latch; let c ← Cpu.get; pure (c.Cycles.toNat, c.Stopped)) := by
   funext s
-  simp only [Gen.CpuGo.Primary.Step, gotie_p, Cpu.stepFull, Cpu.service, Cpu.latchNMI, Cpu.latchIRQ, Cpu.step, Cpu.stepWith,
+  simp only [Gen.CpuGo.Alt.Step, gotie_a, Cpu.stepFull, Cpu.service, Cpu.latchNMI, Cpu.latchIRQ, Cpu.step, Cpu.stepWith,
     Cpu.decodeStage, bind_assoc, beq_iff_eq]
   apply bind_congr_run; intro _ s1
   simp only [modify_bind, get_bind]
   with_reducible apply read_step _ (isRead_nRead _ _); intro opb
   simp only [modify_bind, get_bind, Cpu.pure_bind]
-  have hne : (semOf Variant.primary opb).proc ≠ .none := by
-    have := primary_proc_ne opb.toNat opb.isLt
+  have hne : (semOf Variant.alt opb).proc ≠ .none := by
+    have := alt_proc_ne opb.toNat opb.isLt
     exact this
-  generalize hrow : semOf Variant.primary opb = row at hne
-  generalize hadj : adjOf Variant.primary opb = t
+  generalize hrow : semOf Variant.alt opb = row at hne
+  generalize hadj : adjOf Variant.alt opb = t
   obtain ⟨proc, mode, size, cycles⟩ := row
   cases mode
   all_goals (
@@ -178,4 +178,4 @@ theorem Step_eq (latch : Nat) :
       | (simp only [adjustRegs, adjCycles, hM, hX, and_mask24, mod32_24, lin_go, zx_toNat, if_true, if_false, Bool.false_eq_true]
          all_goals (simp_all [and_mask24, mod32_24, lin_go, zx_toNat])
          all_goals (first | rfl | (split <;> simp_all))))
-end Cpu.GoTie.Primary
+end Cpu.GoTie.Alt
